@@ -254,7 +254,17 @@ Definition validate_bid (ord_utxo : utxo) (bid : N) (expected : quote) (pstx : t
 Definition with_prev (i : input) (s : bytes) (v : N) : input :=
   mkInput (in_txid i) (in_vout i) (in_unlock i) (in_seq i) v (Some s).
 
-(** AcceptBidToBuy1SatOrdinal *)
+(** [enough, err := tx.EstimateIsFeePaidEnough(fq); if err != nil {return err}; if !enough {return ErrInsufficientFees}] *)
+Definition estimate_check (t : tx) (q : quote) : flow tx :=
+  match estimate_is_fee_paid_enough t q with
+  | FOk true => Done t
+  | FOk false => Fail EInsufficientFees
+  | FErr _ => Fail EFeeCheck
+  | FFatal | FPanic => Crash
+  end.
+
+(** AcceptBidToBuy1SatOrdinal (after `fix: accepting a bid to buy an ordinal fails when the bid does not
+    cover the fee of the signed transaction`) *)
 Definition accept_bid (ord_utxo : utxo) (bid : N) (expected : quote) (pstx : tx) (seller_script : bytes)
     : flow tx :=
   let '(ok, p') := validate_bid ord_utxo bid expected pstx in
@@ -265,6 +275,8 @@ Definition accept_bid (ord_utxo : utxo) (bid : N) (expected : quote) (pstx : tx)
       match is_fee_paid_enough t expected with
       | FOk true =>
           let t := set_ins t (set_in_at (tx_ins t) 1 (fun i => with_prev i (u_script ord_utxo) (u_sats ord_utxo))) in
+          (* the checks above saw the ordinal input without its unlocking script *)
+          flet t := estimate_check t expected in
           fill_input t 1 0
       | _ => Fail EInsufficientFees
       end
@@ -316,6 +328,19 @@ Definition validate_bid_2d (prevs : list utxo) (bid : N) (expected : quote) (pst
   | _, _ => (false, pstx)
   end.
 
+(** [for i, in := range PSTx.Inputs { if i != skip { tx.Inputs[i].PreviousTxScript = in.PreviousTxScript; ...Satoshis } }] *)
+Fixpoint restore_prevs (ins from : list input) (i skip : nat) : option (list input) :=
+  match from, ins with
+  | [], _ => Some ins
+  | f :: fr, x :: xr =>
+      match restore_prevs xr fr (S i) skip with
+      | Some r => Some ((if Nat.eqb i skip then x
+                         else mkInput (in_txid x) (in_vout x) (in_unlock x) (in_seq x) (in_sats f) (in_script f)) :: r)
+      | None => None
+      end
+  | _ :: _, [] => None
+  end.
+
 (** AcceptBidToBuy1SatOrdinal2Dummies: the transaction is re-read from the standard serialisation
     (previous scripts and values of the bidder's inputs are gone) *)
 Definition accept_bid_2d (prevs : list utxo) (bid : N) (expected : quote) (pstx : tx) (seller_script : bytes)
@@ -328,7 +353,13 @@ Definition accept_bid_2d (prevs : list utxo) (bid : N) (expected : quote) (pstx 
       let t := p_tx pr in
       let t := set_outs t (set_out_at (tx_outs t) 2 (fun o => mkOutput (out_sats o) seller_script)) in
       let t := set_ins t (set_in_at (tx_ins t) 2 (fun i => with_prev i (u_script ou) (u_sats ou))) in
-      fill_input t 2 0
+      (* the other inputs get their previous outputs back from the partially signed transaction *)
+      match restore_prevs (tx_ins t) (tx_ins p') 0 2 with
+      | None => Crash                                           (* tx.Inputs[i] *)
+      | Some ins =>
+          flet t := estimate_check (set_ins t ins) expected in
+          fill_input t 2 0
+      end
   | ROk _, None => Crash
   | _, _ => Fail EDecode
   end.
